@@ -95,6 +95,73 @@ let statics_cases () =
                     ^ " q=" ^ (if !qs = [] then "-" else String.concat "," (List.rev !qs)) ^ "\n")
     | _ -> print_string "BADCASE\n")
 
+(* build: <mode> <utils> <statics header> <base> <tree> <fs0> <program>
+   tree    ::= F<hex> | D[ <namehex>=<tree> ; ... ]      (no spaces)
+   fs0     ::= - | path=content,path=content
+   program ::= call,call,...  with c<dir> s f<p> g<d> a<p>;<u> t<d>;<to> d<p>;<data> S<p>;<ref> *)
+let parse_tree s : node =
+  let pos = ref 0 in
+  let n = String.length s in
+  let rec tree () =
+    let c = s.[!pos] in incr pos;
+    if c = 'F' then begin
+      let st = !pos in
+      while !pos < n && s.[!pos] <> ';' && s.[!pos] <> ']' do incr pos done;
+      File (bytes_of_hex (let t = String.sub s st (!pos - st) in if t = "" then "-" else t))
+    end else begin
+      (* 'D' '[' entries ']' *)
+      incr pos;
+      let es = ref [] in
+      while s.[!pos] <> ']' do
+        let st = !pos in
+        while s.[!pos] <> '=' do incr pos done;
+        let name = bytes_of_hex (String.sub s st (!pos - st)) in
+        incr pos;
+        let t = tree () in
+        es := (name, t) :: !es;
+        if s.[!pos] = ';' then incr pos
+      done;
+      incr pos;
+      Dir (List.rev !es)
+    end in
+  tree ()
+let parse_kv s = if s = "-" then [] else
+  List.map (fun kv -> match String.split_on_char '=' kv with [k; v] -> (bytes_of_hex k, bytes_of_hex v) | _ -> failwith "kv") (String.split_on_char ',' s)
+let parse_program s : call list =
+  let calls = if s = "-" then [] else String.split_on_char ',' s in
+  let arg c = String.sub c 1 (String.length c - 1) in
+  let two c = match String.split_on_char ';' (arg c) with [a; d] -> (bytes_of_hex a, bytes_of_hex d) | _ -> failwith "two" in
+  let rec go cs = match cs with
+    | [] -> []
+    | c :: r when c.[0] = 'c' -> PCompile (bytes_of_hex (arg c)) :: go r
+    | "s" :: r ->
+      let rec sc l acc = match l with
+        | c :: r' when c <> "s" && c.[0] <> 'c' ->
+          let x = match c.[0] with
+            | 'f' -> SAddFile (bytes_of_hex (arg c))
+            | 'g' -> SAddFiles (bytes_of_hex (arg c))
+            | 'a' -> let (a, d) = two c in SAddFileAs (a, d)
+            | 't' -> let (a, d) = two c in SAddFilesAs (a, d)
+            | 'd' -> let (a, d) = two c in SAddData (a, d)
+            | 'S' -> let (a, d) = two c in SSassRef (a, d)
+            | _ -> failwith "scall" in
+          sc r' (x :: acc)
+        | _ -> (List.rev acc, l) in
+      let (scs, rest) = sc r [] in
+      PStatics scs :: go rest
+    | _ -> failwith "call" in
+  go calls
+let build_cases () =
+  each_line (fun l ->
+    match fields l with
+    | [mode; utils; hdr; base; tree; fs0; prog] ->
+      let mm = match mode with "3" -> M03 | "h" -> MHttp | _ -> MNone in
+      let (w, ok) = run_build_m (bytes_of_hex utils) (bytes_of_hex hdr) mm (parse_tree tree) (bytes_of_hex base) (parse_kv fs0) (parse_program prog) in
+      let kv l = if l = [] then "-" else String.concat "," (List.map (fun (k, v) -> hex_of_bytes k ^ "=" ^ hex_of_bytes v) l) in
+      let ps l = if l = [] then "-" else String.concat "," (List.map hex_of_bytes l) in
+      print_string ("ok=" ^ (if ok then "1" else "0") ^ " fs=" ^ kv w.fs ^ " writes=" ^ ps w.writes ^ " out=" ^ hex_of_bytes w.out ^ " reads=" ^ ps w.reads ^ "\n")
+    | _ -> print_string "BADCASE\n")
+
 let hash_cases () =
   each_line (fun l -> print_string (hex_of_bytes (checksum_slug (bytes_of_hex l)) ^ " " ^ hex_of_bytes (md5 (bytes_of_hex l)) ^ "\n"))
 
@@ -104,4 +171,5 @@ let () =
   | "io" -> io_cases ()
   | "statics" -> statics_cases ()
   | "hash" -> hash_cases ()
+  | "build" -> build_cases ()
   | _ -> prerr_endline "usage: driver compile|..."; exit 2
